@@ -313,11 +313,19 @@ func sutTransient(name string) bool {
 	return !strings.Contains(last, ":newTunnelChannel#")
 }
 
-// Drain waits until every per-RPC thread of the code under test has finished.
+// waitingForFrame: the thread is parked in a carrier receive with nothing to receive - i.e. it
+// is a tunnel receive loop between two frames (recognised by what it does, not by the name of
+// the function that started it).
+func waitingForFrame(th *verifrt.Thread) bool {
+	return th.Parked && th.Kind == "carrier" && strings.Contains(th.Site, ".recv:") && th.Guard != nil && !th.Guard()
+}
+
+// Drain waits until every per-RPC thread of the code under test has finished: every thread
+// started by the library is either done or a receive loop waiting for its next frame.
 func (w *World) Drain() {
 	w.WaitUntil("drain", func() bool {
 		for _, th := range w.S.Threads {
-			if !th.Done && sutTransient(th.Name) {
+			if !th.Done && strings.Contains(th.Name, ".go:") && !waitingForFrame(th) {
 				return false
 			}
 		}
@@ -329,10 +337,12 @@ func (w *World) Drain() {
 // the next frame (it must only be called from guards, i.e. at quiescent points).
 func (w *World) RecvLoopsIdle() bool {
 	for _, th := range w.S.Threads {
-		if !strings.Contains(th.Name, ":newTunnelChannel#") || th.Done {
+		if th.Done || !(strings.Contains(th.Name, ".go:") || strings.HasSuffix(th.Name, ":handler") || strings.HasPrefix(th.Name, "serve:")) {
 			continue
 		}
-		if !(th.Parked && th.Kind == "carrier" && strings.Contains(th.Site, ".recv:") && th.Guard != nil && !th.Guard()) {
+		// no thread of the library may be able to run: each is waiting (for a frame, for the
+		// application, for a lock holder ...)
+		if !th.Parked || th.Guard == nil || th.Guard() {
 			return false
 		}
 	}
